@@ -30,6 +30,7 @@ func Alphabet() []verifc14.Sym {
 	out := []verifc14.Sym{
 		{Name: "OK", Group: "success", Class: verifc14.Success},
 		{Name: "OK-partial-rejected", Group: "partial success", Class: verifc14.PartialRejected, Rejected: 3, Message: "c14 rejected"},
+		{Name: "OK-partial-rejected-all", Group: "partial success (everything sent was rejected)", Class: verifc14.PartialRejected, Rejected: 1, Message: "c14 rejected all"},
 		{Name: "OK-partial-message", Group: "partial success (message only)", Class: verifc14.PartialMessage, Message: "c14 warning"},
 		{Name: "OK-partial-empty", Group: "success", Class: verifc14.PartialEmpty, Thorough: true},
 	}
